@@ -114,6 +114,41 @@ def handle(req: Dict[str, Any]) -> Any:
             except Exception as e:  # noqa
                 out.append(("error", f"{type(e).__name__}: {e}"))
         return out
+    if op == "json_decode_digest":
+        # for documents too deep to send back as values: decode, then describe the value by an iterative walk
+        import hashlib
+
+        import chuk_mcp.protocol.fast_json as fj
+
+        out = []
+        for s in req["texts"]:
+            for form in ("str", "bytes"):
+                try:
+                    v = fj.loads(s if form == "str" else s.encode("utf-8"))
+                except BaseException as e:  # noqa  (RecursionError, MemoryError are outcomes too)
+                    if isinstance(e, (KeyboardInterrupt, SystemExit)):
+                        raise
+                    out.append(("error", type(e).__name__))
+                    continue
+                h = hashlib.sha256()
+                stack = [v]
+                depth_marks = 0
+                while stack:
+                    x = stack.pop()
+                    if isinstance(x, dict):
+                        h.update(b"{%d" % len(x))
+                        for k_ in sorted(x, reverse=True):
+                            stack.append(x[k_])
+                            stack.append("$key:" + k_)
+                        depth_marks += 1
+                    elif isinstance(x, list):
+                        h.update(b"[%d" % len(x))
+                        stack.extend(reversed(x))
+                        depth_marks += 1
+                    else:
+                        h.update((type(x).__name__ + ":" + repr(x)).encode("utf-8", "surrogatepass"))
+                out.append(("ok", h.hexdigest(), depth_marks))
+        return out
     if op == "validate":
         out = []
         for target, how, data in req["cases"]:
@@ -125,6 +160,9 @@ def handle(req: Dict[str, Any]) -> Any:
                     obj = cls(**data)
                 else:
                     obj = cls.model_validate(data)
+                    if how == "validate_plain_first":
+                        # the application looks at the object under its Python names first (logging, a cache key ...)
+                        obj.model_dump()
                 if isinstance(obj, list):
                     dump = [o.model_dump(by_alias=True, exclude_none=True) for o in obj]
                     tt: Any = [type_tree(o) for o in obj]
